@@ -2,10 +2,11 @@
 
    The full statement (C01_full) is compiler correctness of the converter model for every program of
    Script.Syntax; what is proved is stage S1 (straight-line programs: any expression nesting, literals
-   with their static CastLike, calls of operators and of other script functions, re-assignment, aliasing,
-   several return values with the Identity copies for returned inputs / duplicates).  Stages S2 (if/else),
-   S3 (for/while/break) and S4 (attribute parameters, tuple assignment) are not proved: for those the
-   evidence is the skeleton correspondence and the four-way direct oracle of harness/c01.py only. *)
+   with their static CastLike, calls of operators and of other script functions, tuple assignment from
+   multi-output calls, re-assignment, aliasing, several return values with the Identity copies for returned
+   inputs / duplicates).  Stages S2 (if/else), S3 (for/while/break) and S4 (attribute parameters) are not
+   proved: for those the evidence is the skeleton correspondence and the four-way direct oracle of
+   harness/c01.py only. *)
 From Coq Require Import List String ZArith Bool.
 Require Import OV.Graph.Syntax OV.Graph.Sem OV.Script.Syntax OV.Script.Sets OV.Gen.Analysis OV.Gen.ScriptTables
                OV.Script.Translate OV.Script.PySem OV.Script.TranslateProofs OV.Script.TablesProofs OV.Script.TranslateExamples
